@@ -60,6 +60,9 @@ OT_AV, OT_BV, OT_DEV = 2, 5, 8
 P_PV, P_NAME, P_ALL, P_DESC = 85, 77, 8, 28
 
 
+BIG_TEXT = ''.join(chr(97 + (i * 7) % 26) for i in range(330))      # a property whose value needs 8+ segments of 50 octets
+
+
 def frame(apdu, der=True, bvfn=wire.BV_ORIG_UNICAST):
     return wire.encode_bvll(bvfn, wire.encode_npdu(apdu, der=der))
 
@@ -181,7 +184,7 @@ class Run:
         self.av1 = AnalogValueObject(objectIdentifier=('analogValue', 1), objectName='av1', presentValue=1.0,
                                      statusFlags=[0, 0, 0, 0], covIncrement=0.5, description='one')
         self.av2 = AnalogValueObject(objectIdentifier=('analogValue', 2), objectName='av2', presentValue=7.0,
-                                     statusFlags=[0, 0, 0, 0])
+                                     statusFlags=[0, 0, 0, 0], description=BIG_TEXT)
         self.bv1 = BinaryValueObject(objectIdentifier=('binaryValue', 1), objectName='bv1', presentValue='inactive',
                                      statusFlags=[0, 0, 0, 0])
         for o in (self.av1, self.av2, self.bv1):
@@ -189,6 +192,7 @@ class Run:
         self.stack = IPStack(w, self.dev_host, app, device, 'simple')
         self.stack.smap.applicationTimeout = 2000
         self.sent = []
+        self.timer_viol = []
 
     def _inj_rx(self, src, dst, octets):
         seq = self.w.log('injrx', '%s:%d' % tuple(src), octets.hex())
@@ -222,6 +226,24 @@ class Run:
                 seg.add(a['service'])
         n_rep = len(unseg) + (1 if seg else 0)
         return n_rep, [u[0] for u in unseg] + (['cack-segmented'] if seg else []), unseg
+
+    def inspect_timers(self):
+        """invariant while the run proceeds: a transaction state machine sits in the scheduler at most once, and never
+        after it has finished"""
+        from bacpypes.appservice import SSM, COMPLETED, ABORTED
+        seen = set()
+        for (when, n, task) in tm.tasks:
+            if not isinstance(task, SSM):
+                continue
+            what = None
+            if id(task) in seen:
+                what = 'two scheduler entries for one %s (state %s)' % (type(task).__name__, SSM.transactionLabels[task.state])
+            elif task.state in (COMPLETED, ABORTED):
+                what = 'scheduler entry for a %s %s' % (SSM.transactionLabels[task.state], type(task).__name__)
+            seen.add(id(task))
+            if what and not self.timer_viol:
+                self.timer_viol.append('%s at t=%.3f (peer %s, invoke %s)' % (what, self.w.now, task.pdu_address, task.invokeID))
+        self.w.probe('timer_invariant_checked')
 
     def quiesce(self, horizon=120.0):
         self._t_last = clock.now
@@ -339,6 +361,8 @@ def execute_batch(desc):
     w = run.w
     out = []
     obligations = []
+    routed = []
+    routed_seen = {}
     for item in desc['frames']:
         fr = bytes.fromhex(item['frame'])
         if item.get('gap'):
@@ -346,17 +370,33 @@ def execute_batch(desc):
             target = run._t_last + item['gap']
             if clock.now < target:
                 clock.now = target
+        run.inspect_timers()
         mark = w.seq
+        if item.get('from') == 'rtr':
+            # a request of a station on a remote network, arriving through its router (obligation: one reply back
+            # through that router, addressed to that network and station)
+            w.log('rtrtx', item.get('label', ''), fr.hex())
+            run.rtr.send(fr, DEV_T)
+            if item.get('invoke', -1) >= 0:
+                routed_seen[(item['invoke'], item['snet'])] = routed_seen.get((item['invoke'], item['snet']), 0) + 1
+            if item.get('valid'):
+                routed.append((mark, item['invoke'], item['snet'], item.get('label', '')))
+            continue
         run.send(fr, item.get('label', ''))
         intact, invoke, service = classify(fr)
         if intact:
             obligations.append((mark, invoke, service, item.get('label', ''), item.get('valid', False)))
+    for dt in (0.0, 0.4, 0.7, 1.1, 1.6, 2.2, 3.1, 4.3, 6.1, 9.7):
+        w.after(dt, run.inspect_timers)
     res = run.quiesce()
     if res == 'budget':
         out.append({'clause': 'C10.b', 'detail': 'device did not come to rest: frame/tick budget exceeded', 'sigkey': 'budget', 'sig': {'kind': 'budget'}})
         run.finish()
         return run, out
     errs = loop_errors()
+    for tv in run.timer_viol:
+        out.append({'clause': 'C10.b', 'detail': 'leftover timer while the device is working: %s; swallowed exceptions %r' % (tv, errs),
+                    'sigkey': 'stale-timer', 'sig': {'kind': 'stale-timer', 'what': tv.split(' at t=')[0]}})
     # replies are attributed by invoke id: any other datagram of the batch that could be read as a
     # confirmed request with the same id (however loosely framed) makes the count ambiguous
     seen_inv = {}
@@ -375,6 +415,22 @@ def execute_batch(desc):
                         % ('valid' if valid else 'well-framed', label, service, invoke, len(desc['frames']) - 1, n, kinds, errs),
                         'sigkey': 'batch-replies=%d:%s:%s' % (min(n, 2), 'valid' if valid else 'mut', ','.join(errs)),
                         'sig': {'kind': 'batch-reply-count', 'n': min(n, 2), 'valid': valid, 'errors': errs}})
+    for (mark, invoke, snet, label) in routed:
+        if routed_seen.get((invoke, snet), 0) > 1:
+            w.probe('ambiguous_invoke_in_batch')
+            continue
+        kinds = set()
+        for (seq, t, octets) in run.rtr_rx:
+            v = wire.decode_bvll(octets)
+            n = wire.decode_npdu(v['npdu']) if v and 'npdu' in v else None
+            a = wire.decode_apdu(n['apdu']) if n and not n['netmsg'] else None
+            if a is not None and a.get('invoke') == invoke and n['dnet'] == snet and seq > mark:
+                if a['type'] in (wire.T_SACK, wire.T_ERROR, wire.T_REJECT, wire.T_CACK) or (a['type'] == wire.T_ABORT and a['srv']):
+                    kinds.add(a['name'] if not a.get('seg') else 'cack-segmented')
+        if len(kinds) != 1:
+            out.append({'clause': 'C10.c', 'detail': 'valid routed request %r (network %d, invoke %d) received replies %r through its router; swallowed exceptions %r'
+                        % (label, snet, invoke, sorted(kinds), errs), 'sigkey': 'routed-replies=%d' % min(len(kinds), 2),
+                        'sig': {'kind': 'routed-reply-count', 'n': min(len(kinds), 2), 'errors': errs}})
     r = run.residue()
     if r:
         out.append({'clause': 'C10.b', 'detail': 'after the batch the device holds %r; swallowed exceptions %r' % (r, errs),
@@ -455,6 +511,67 @@ def gen_batch(seed, idx):
     return {'prop': 'C10', 'seed': H(seed, 'C10run', idx) & 0x7fffffff, 'frames': frames}
 
 
+def gen_conv(seed, idx):
+    """Segmented conversations: requests whose answer needs 8+ segments (the requester accepts 50 octets), then a seeded
+    script of segment-acks -- right ones, wrong sequence numbers, absurd windows, wrong role bits, other invoke ids --,
+    duplicates of the request, aborts and silence; up to three requesters at once (the injector with two invoke ids,
+    stations 5:05 and 6:05 behind the router host with the SAME invoke id).  Afterwards: every request got its one reply,
+    nothing is left in the device, the follow-up requests are answered."""
+    rng = rng_for(seed, 'C10conv', idx)
+    big = wire.ctx_objid(0, OT_AV, 2) + wire.ctx_enum(1, P_DESC)
+    frames = []
+    inv_a = rng.choice([1, 7, 40, 255])
+    talkers = [('inj', inv_a, None)]
+    if rng.random() < 0.5:
+        talkers.append(('inj', (inv_a + 1) & 0xff, None))
+    if rng.random() < 0.5:
+        talkers.append(('rtr', inv_a, 5))
+        if rng.random() < 0.6:
+            talkers.append(('rtr', inv_a, 6))
+    rng.shuffle(talkers)
+
+    def wrap(apdu, who, snet):
+        if who == 'inj':
+            return frame(apdu)
+        return wire.encode_bvll(wire.BV_ORIG_UNICAST, wire.encode_npdu(apdu, snet=snet, sadr=b'\x05', der=True))
+
+    for (who, inv, snet) in talkers:
+        apdu = wire.conf_req(inv, 12, big, maxsegs=rng.choice([0, 0, 4, 7]), maxresp=0, sa=True)
+        it = {'frame': wrap(apdu, who, snet).hex(), 'label': 'valid:RP-big:%s:%s:%d' % (who, snet, inv), 'valid': True, 'gap': rng.choice([0, 0, 0.2])}
+        if who == 'rtr':
+            it.update({'from': 'rtr', 'invoke': inv, 'snet': snet})
+        frames.append(it)
+    nxt = {}
+    for k in range(rng.randint(0, 14)):
+        who, inv, snet = rng.choice(talkers)
+        u = rng.random()
+        key = (who, inv, snet)
+        if u < 0.45:
+            # the right acknowledgement for where this script thinks the transfer is (window 1..3)
+            win = rng.choice([1, 1, 2, 3])
+            sq = nxt.get(key, 0) + win - 1
+            nxt[key] = sq + 1
+            apdu = wire.segment_ack(inv, sq, win)
+            lab = 'segack:%d/%d' % (sq, win)
+        elif u < 0.8:
+            apdu = wire.segment_ack(rng.choice([inv, inv, inv, (inv + 3) & 0xff]), rng.choice([0, 1, 2, 5, 7, 8, 200, 255]), rng.choice([0, 1, 2, 4, 127, 255]),
+                                    nak=rng.random() < 0.3, srv=rng.random() < 0.2)
+            lab = 'segack:odd'
+        elif u < 0.9:
+            apdu = wire.conf_req(inv, 12, big, maxsegs=0, maxresp=0, sa=True)
+            lab = 'dup-request'
+        else:
+            apdu = wire.abort_pdu(inv, rng.choice([0, 4, 9]), srv=False)
+            lab = 'abort'
+        it = {'frame': wrap(apdu, who, snet).hex(), 'label': lab, 'gap': rng.choice([0, 0, 0.001, 0.3, 1.2, 2.5])}
+        if who == 'rtr':
+            it.update({'from': 'rtr', 'invoke': -1, 'snet': snet})
+            if lab == 'dup-request':
+                it['invoke'] = inv
+        frames.append(it)
+    return {'prop': 'C10', 'seed': H(seed, 'C10conv', idx) & 0x7fffffff, 'frames': frames, 'frame_cap': 8000, 'conv': True}
+
+
 def single_descs(name, full):
     fr = VALID[name]
     out = [{'prop': 'C10', 'seed': 0, 'service': name, 'label': 'identity', 'frame': fr.hex()}]
@@ -494,6 +611,10 @@ def run_unit(unit):
             if i % unit['mod'] == unit['rem']:
                 _account(agg, d, execute_desc(d))
         agg.cells += 1
+    elif unit['kind'] == 'conv':
+        for idx in range(unit['start'], unit['start'] + unit['count']):
+            d = gen_conv(unit['seed'], idx)
+            _account(agg, d, execute_desc(d))
     else:
         for idx in range(unit['start'], unit['start'] + unit['count']):
             d = gen_batch(unit['seed'], idx)
@@ -515,6 +636,8 @@ def units(tier, seed):
     n = 12000 if full else 4000
     for k in range(n):
         us.append({'kind': 'batch', 'seed': seed, 'start': k * 25, 'count': 25})
+        if k % 2 == 0:
+            us.append({'kind': 'conv', 'seed': seed, 'start': (k // 2) * 20, 'count': 20})
     return us
 
 
